@@ -181,7 +181,7 @@ def handle : List Sexp → Option Sexp
       let s := raceRun (RaceSt.init n) sched
       pure (.list [ofBool s.streamPrepared, ofBool s.prepared,
                    .list (s.pcs.map fun pc => .atom (match pc with
-                     | .l455 => "l455" | .l474 => "l474" | .l475 => "l475" | .l476 => "l476"
+                     | .l455 => "l455" | .l474 => "l474" | .l475 => "l475" | .l475run _ => "l475run" | .l476 => "l476"
                      | .finished => "finished" | .raised => "raised"))])
   | _ => none
 
